@@ -326,3 +326,31 @@ __CPROVER_ensures(__CPROVER_return_value != 0 || !(ghost_k < s) || ghost_ak == g
 """)
 for fn, rt in (("InlinedMemcmpEq", "bool"), ("InlinedMemcmp", "int")):
     UNITS["sse." + fn] = dict(file=A + "sse/base.h", anchor=r"sonic_force_inline %s %s\(" % (rt, fn))
+
+# ------------------------------------------------------------------ quoting (C09): quote_common.h, quote.inc.h
+QC = A + "common/quote_common.h"
+UNITS["DoEscape"] = dict(
+    file=QC, anchor=r"sonic_static_inline void DoEscape\(", nloops=1,
+    callmacro="#define DoEscape(s, d, n) (DoEscape)(&(s), &(d), &(n))",
+    loops={0: """__CPROVER_assigns(src, dst, nb, __CPROVER_object_whole(dst))
+__CPROVER_loop_invariant(1 <= nb && nb <= __CPROVER_loop_entry(nb))
+__CPROVER_loop_invariant(__CPROVER_same_object(src, __CPROVER_loop_entry(src)) && __CPROVER_POINTER_OFFSET(src) == __CPROVER_POINTER_OFFSET(__CPROVER_loop_entry(src)) + (__CPROVER_loop_entry(nb) - nb))
+__CPROVER_loop_invariant(__CPROVER_same_object(dst, __CPROVER_loop_entry(dst)) && __CPROVER_POINTER_OFFSET(dst) >= __CPROVER_POINTER_OFFSET(__CPROVER_loop_entry(dst)) + 2 * (__CPROVER_loop_entry(nb) - nb) && __CPROVER_POINTER_OFFSET(dst) <= __CPROVER_POINTER_OFFSET(__CPROVER_loop_entry(dst)) + 6 * (__CPROVER_loop_entry(nb) - nb))
+__CPROVER_loop_invariant(SPEC_NEED_ESCAPE(*src))
+__CPROVER_decreases(nb)"""},
+    contract="""__CPROVER_requires(__CPROVER_rw_ok(src__r, sizeof(*src__r)) && __CPROVER_rw_ok(dst__r, sizeof(*dst__r)) && __CPROVER_rw_ok(nb__r, sizeof(*nb__r)))
+__CPROVER_requires(1 <= *nb__r && *nb__r <= MAXLEN)
+__CPROVER_requires(__CPROVER_r_ok(*src__r, *nb__r))
+/* every escaped byte is written with one 8-byte store, the last one at most at dst + 6*(nb-1) */
+__CPROVER_requires(__CPROVER_w_ok(*dst__r, 6 * *nb__r + 2))
+/* call-site fact: the byte at *src needs an escape (its kQuoteTab entry is non-null) */
+__CPROVER_requires(SPEC_NEED_ESCAPE(**src__r))
+__CPROVER_assigns(*src__r, *dst__r, *nb__r, __CPROVER_object_upto(*dst__r, 6 * *nb__r + 2))
+/* C09: consumes k >= 1 source bytes, emits between 2k and 6k bytes, stops at the first byte that needs no escape */
+__CPROVER_ensures(*nb__r < __CPROVER_old(*nb__r))
+__CPROVER_ensures(__CPROVER_same_object(*src__r, __CPROVER_old(*src__r)) && __CPROVER_POINTER_OFFSET(*src__r) == __CPROVER_POINTER_OFFSET(__CPROVER_old(*src__r)) + (__CPROVER_old(*nb__r) - *nb__r))
+__CPROVER_ensures(__CPROVER_same_object(*dst__r, __CPROVER_old(*dst__r)))
+__CPROVER_ensures(__CPROVER_POINTER_OFFSET(*dst__r) >= __CPROVER_POINTER_OFFSET(__CPROVER_old(*dst__r)) + 2 * (__CPROVER_old(*nb__r) - *nb__r))
+__CPROVER_ensures(__CPROVER_POINTER_OFFSET(*dst__r) <= __CPROVER_POINTER_OFFSET(__CPROVER_old(*dst__r)) + 6 * (__CPROVER_old(*nb__r) - *nb__r))
+__CPROVER_ensures(*nb__r == 0 || !SPEC_NEED_ESCAPE(**src__r))
+""")
